@@ -56,13 +56,21 @@ class World:
         """an abandoned entry as a crashed qmail-queue leaves it; returns n. dir0: pick a number that lands in mess/0, the first
         directory the daemon's garbage-collection sweep visits"""
         q = self.h.queue
-        for attempt in range(4 * self.h.split):
-            p = os.path.join(q, "pid", "left.%d.%d" % (len(os.listdir(os.path.join(q, "pid"))), attempt))
+        junk = []
+        found = False
+        base = len(os.listdir(os.path.join(q, "pid")))
+        for attempt in range(8 * self.h.split):
+            p = os.path.join(q, "pid", "left.%d.%d" % (base, attempt))
             open(p, "wb").write(b"Received: (qmail 1 invoked by uid 1); 1 Jan 2020 00:00:00 -0000\nleft\n")
             n = os.stat(p).st_ino
             if not dir0 or n % self.h.split == 0:
+                found = True
                 break
-            os.unlink(p)
+            junk.append(p)          # kept until a fitting number turns up: a freed inode number could be handed out again at once
+        for j in junk:
+            os.unlink(j)
+        if not found:
+            raise qworld.Inconclusive("no inode number for mess/0 among %d fresh files" % (8 * self.h.split))
         os.link(p, self.h.qpath("mess", n))
         os.unlink(p)
         if kind in ("S3", "S4"):
@@ -76,10 +84,17 @@ class World:
                 os.utime(fp, (t, t))
         return n
 
-    def start_daemons(self, sched_env, crash=None):
+    def start_daemons(self, sched_env, crash=None, fault=None):
         h = self.h
         lcmd, lrep, rcmd, rrep, creq, crep = [os.pipe() for _ in range(6)]
         extra = {}
+        if fault:
+            once = os.path.join(h.dir, "faultonce")
+            if os.path.exists(once):
+                os.unlink(once)
+            extra["VSHIM_FAULT"] = "%s:%s:%d:%s" % (fault["key"], fault["cls"], fault["k"], fault["err"])
+            extra["VSHIM_FAULTONCE"] = once
+            extra["VSHIM_FAULT_GEN"] = "0"
         if crash:
             extra["VSHIM_CRASH"] = crash
             extra["VSHIM_CRASHFLAG"] = os.path.join(h.dir, "crashflag")
@@ -92,16 +107,30 @@ class World:
             os.close(fd)
         for fd in (lcmd[0], rcmd[0]):
             os.set_blocking(fd, False)
-        os.write(lrep[1], bytes([120]))
-        os.write(rrep[1], bytes([120]))
+        for fd in (lrep[1], rrep[1]):
+            try:
+                os.write(fd, bytes([120]))
+            except BrokenPipeError:
+                pass                      # the daemon already gave up (injected start-up fault); its exit is noticed by the caller
         return {"pids": [cpid, spid], "cmd": [lcmd[0], rcmd[0]], "rep": [lrep[1], rrep[1]], "buf": [b"", b""]}
 
-    def wait_proc(self, sched, key):
+    def wait_proc(self, sched, key, pid=None):
+        """-> True when the process reached its first gate, False when it exited before (pid given)"""
         t_end = time.time() + gate.WATCHDOG
         while not [x for x in sched.procs if x.key == key]:
             sched._pump(0.05)
+            if pid is not None:
+                try:
+                    state = open("/proc/%d/stat" % pid).read().rsplit(")", 1)[1].split()[0]
+                except (OSError, IndexError):
+                    state = "Z"
+                if state == "Z":
+                    sched._pump(0.05)
+                    if not [x for x in sched.procs if x.key == key]:
+                        return False
             if time.time() > t_end:
                 raise qworld.Inconclusive("%s did not reach its first gate" % key)
+        return True
 
     def answer_commands(self, d, script, counter):
         """the driver is both spawners: answer every delivery command at once with the scripted letter"""
@@ -226,8 +255,15 @@ class World:
             for n in reversed(late):
                 os.link(self.h.qpath("intd", n), self.h.qpath("todo", n))
             crash = sc.get("crash")
-            d = self.start_daemons(senv, crash="%s:%d" % (crash["key"], crash["k"]) if crash else None)
-            self.wait_proc(sched, "send.qmail-send")
+            d = self.start_daemons(senv, crash="%s:%d" % (crash["key"], crash["k"]) if crash else None, fault=sc.get("fault"))
+            daemon_up = self.wait_proc(sched, "send.qmail-send", pid=d["pids"][1])
+            if not daemon_up:
+                if crash and os.path.exists(flag):
+                    daemon_up = True                                       # the crash handling at the top of the loop takes over
+                elif sc.get("fault") and os.path.exists(os.path.join(h.dir, "faultonce")):
+                    out["classes"].add("daemon_gave_up_after_fault")     # "alert: cannot start: ..." after an I/O error: nothing was touched
+                else:
+                    out["verdict"] = "daemon exited during start-up without any injected fault"
             counter = [0]
             started = 0
             msgs = sc["messages"]
@@ -237,7 +273,7 @@ class World:
             accepted = []
             idle_rounds = 0
             maxsteps = 1500
-            while True:
+            while daemon_up:
                 sched.settle()
                 if self.answer_commands(d, sc.get("script", "K"), counter):
                     sched.epoch += 1
@@ -278,6 +314,11 @@ class World:
                         envb = envb[:-1] + b"X\0"  # wrong record letter: exit 91, files left for the garbage collection
                     open(ef, "wb").write(envb)
                     env_i = h.env(role="inj%d" % started, uid=4242, trace=True, **senv)
+                    al = sc.get("alarm")
+                    if al and al["inj"] == started:
+                        # this injector's 24-hour timer fires just before its k-th mutating call (qmail-queue's own SIGALRM handler runs)
+                        env_i["VSHIM_SIGNAL"] = "inj%d:%d:14" % (started, al["k"])
+                        out["classes"].add("injector_alarm")
                     p = subprocess.Popen([self.tree.path("qmail-queue")], stdin=open(mf, "rb"), stdout=open(ef, "rb"), stderr=subprocess.DEVNULL,
                                          env=env_i, cwd="/", start_new_session=True)
                     inj.append(p)
@@ -305,6 +346,11 @@ class World:
                     if not dm:
                         if crash and os.path.exists(flag):
                             continue
+                        if sc.get("fault") and os.path.exists(os.path.join(h.dir, "faultonce")):
+                            # an I/O error during start-up legitimately makes the daemon give up ("alert: cannot start: ..."); the state
+                            # table was judged after every step it took, the final state is judged below
+                            out["classes"].add("daemon_gave_up_after_fault")
+                            break
                         out["verdict"] = "daemon died during the schedule"
                         break
                     if not live_inj and started >= len(msgs) and dm[0].state == "blk" and dm[0].msg[1] == "select":
@@ -346,6 +392,8 @@ class World:
                         break
             out["steps"] = [(k.split(".")[0] + ("q" if k.endswith("qmail-queue") and k.startswith("send") else ""), c, re.sub(r"\d+", "N", pth.rsplit("/queue/", 1)[-1])[-20:])
                             for k, c, pth, kind in sched.steps if kind == "REQ"]
+            if sc.get("fault") and os.path.exists(os.path.join(h.dir, "faultonce")):
+                out["classes"].add("fault_reached_%s" % sc["fault"]["cls"])
             if not out["verdict"]:
                 out["verdict"] = self.final_checks(sc, inj, left, crashed, now)
         except qworld.Inconclusive as e:
@@ -408,18 +456,25 @@ class World:
                 rc = p.wait(timeout=10)
             except subprocess.TimeoutExpired:
                 return None
-            if rc != 0 and not crashed and not any(m.get("bad_env") for m in sc["messages"]):
+            if rc != 0 and not crashed and not any(m.get("bad_env") for m in sc["messages"]) and not (sc.get("alarm") and rc == 52):
                 return "injector exited %r" % rc
         snap, bad, pids = h.snapshot()
         v = self.check_post(snap, bad)
         if v:
             return "final: " + v
+        if sc.get("fault"):
+            # one I/O error in the daemon or the cleaner: the affected step is retried minutes later, so only the state table and the
+            # removal order (checked at every step above) are judged, not the final emptiness of the queue
+            if os.path.exists(os.path.join(h.dir, "faultonce")):
+                return None
         # every accepted message ends in S1 (all outcomes are K or D); leftovers obey the 36 h rule
         for n, s in snap.items():
             lo = left.get(n)
             if lo is None:
-                if (crashed or any(m.get("bad_env") for m in sc["messages"])) and s <= {"mess", "intd"}:
+                if (crashed or sc.get("alarm") or any(m.get("bad_env") for m in sc["messages"])) and s <= {"mess", "intd"}:
                     continue          # leftover of an injector that died / backed out: legitimately stays until ossified
+                if sc.get("alarm") and s == {"mess", "intd", "todo"}:
+                    continue          # the timer fired between link(todo) and the trigger: a pristine S4 entry waits for the periodic rescan
                 return "message %d is still in the queue in state %r after all deliveries were answered" % (n, sorted(s))
             if lo["kind"] in ("S2", "S3") and lo["age"] > self.ossified + 60 and not crashed:
                 return "leftover %d (%s, %d s old) was not collected although it is older than 36 hours" % (n, lo["kind"], lo["age"])
@@ -452,6 +507,12 @@ def scenario(draw):
         sc["crash"] = {"key": draw(st.sampled_from(["send.qmail-send", "clean.qmail-clean", "inj0", "send.qmail-queue"])), "k": draw(st.integers(0, 40))}
     if draw(st.integers(0, 4)) == 0:
         sc["second_daemon_at"] = draw(st.integers(0, 60))
+    if draw(st.integers(0, 5)) == 0:
+        sc["alarm"] = {"inj": draw(st.integers(0, nm - 1)), "k": draw(st.integers(0, 12))}
+    if not sc.get("crash") and draw(st.integers(0, 4)) == 0:
+        sc["fault"] = {"key": draw(st.sampled_from(["send.qmail-send", "send.qmail-send", "clean.qmail-clean"])),
+                       "cls": draw(st.sampled_from(["unlink", "unlink", "unlink", "link", "open", "write", "fsync", "stat", "read"])),
+                       "k": draw(st.integers(0, 14)), "err": draw(st.sampled_from(["5", "28", "13"]))}
     return sc
 
 
@@ -465,6 +526,8 @@ def record(stats, sc, out, extra_cls=()):
         cls.append("with_leftovers")
     if sc.get("crash"):
         cls.append("with_crash_spec")
+    if sc.get("fault"):
+        cls.append("with_fault_spec")
     cls.append("injectors_%d" % len(sc["messages"]))
     stats.case(scenario={k: v for k, v in sc.items() if k != "tape"} | {"tape_len": len(sc.get("tape", [])), "steps": len(out["steps"])},
                nontrivial=out["ndec2"] >= 3, classes=cls, key=key)
@@ -545,6 +608,14 @@ def crash_sweep_scenarios():
         for key, n in (("send.qmail-send", 34), ("clean.qmail-clean", 8), ("inj0", 11), ("send.qmail-queue", 11)):
             for k in range(n):
                 out.append(dict(base, tape=list(tape), crash={"key": key, "k": k}))
+        # the injector's 24-hour alarm at every one of its mutating steps (added after seeded change C02-D)
+        for k in range(13):
+            out.append(dict(base, tape=list(tape), alarm={"inj": 0, "k": k}))
+    # one failing unlink()/link() at every position in the daemon and the cleaner (added after seeded change C02-C: the removal order must
+    # also survive an I/O error on the step before)
+    for key, cls, n in (("send.qmail-send", "unlink", 12), ("clean.qmail-clean", "unlink", 6), ("send.qmail-send", "stat", 10), ("send.qmail-send", "open", 12)):
+        for k in range(n):
+            out.append(dict(base, tape=[], fault={"key": key, "cls": cls, "k": k, "err": "5"}))
     return out
 
 
@@ -557,11 +628,11 @@ def run(ctx):
     if os.path.isdir(d):
         for f in sorted(os.listdir(d)):
             fixed.append(json.load(open(os.path.join(d, f))).get("scenario"))
-    jobs = [(tree, i, vlib.subseed(ctx.seed, "c02", i), ctx.n(60, 800), fixed[i::nw]) for i in range(nw)]
+    jobs = [(tree, i, vlib.subseed(ctx.seed, "c02", i), ctx.n(200, 2000), fixed[i::nw]) for i in range(nw)]
     ctx.stats.merge(vlib.run_workers(worker, jobs))
     # systematic prefix
     roots = [[a, b, c, e] for a in (0, 1) for b in (0, 1) for c in (0, 1) for e in (0, 1)]
-    jobs = [(tree, "d%d" % i, roots[i::nw], ctx.n(15, 600)) for i in range(nw) if roots[i::nw]]
+    jobs = [(tree, "d%d" % i, roots[i::nw], ctx.n(25, 600)) for i in range(nw) if roots[i::nw]]
     st_ = vlib.run_workers(worker_dfs, jobs)
     ctx.stats.merge(st_)
     ctx.notes["systematic_1x1_complete"] = st_.extra.get("dfs_complete", 0) == st_.extra.get("dfs_jobs", -1)
